@@ -160,6 +160,51 @@ def work_default(task):
     return acc.result()
 
 
+def work_special(task):
+    """(i) fewer rows than sensors; (ii) the SAME array object labelled again with another window size"""
+    from vlib import lib
+    lib.load("nojit")
+    import fast_ticc
+    from vlib.seams import TRACER
+    acc = Acc()
+    for (N, W, T, K) in ((6, 1, 4, 2), (5, 2, 4, 2), (8, 1, 6, 2), (4, 3, 3, 2)):
+        d = build(N, W, K, (T,), False)
+        rec = ml.real_run(d, block_init(d), 2, (), entry="front")
+        acc.n += 1
+        acc.nontrivial += 1
+        case = {"N": N, "W": W, "K": K, "lengths": [T], "joint": False, "path": "special_wide"}
+        if rec.error is not None:
+            acc.count("runs_raised", type(rec.error).__name__)
+            continue
+        msg = judge(rec)
+        if msg:
+            acc.fail(case, f"fewer rows than sensors (T={T}, N={N}, W={W}): {msg}")
+    X = series_for(40, 2, 0)
+    TRACER.install()
+    TRACER.deep = False
+    for W in (3, 2, 1, 2, 4, 3):
+        Tp = 40 - W + 1
+        TRACER.begin(init_labels=[0 if i < Tp // 2 else 1 for i in range(Tp)], pool_factory="virtual")
+        acc.n += 1
+        acc.nontrivial += 1
+        case = {"N": 2, "W": W, "K": 2, "lengths": [40], "joint": False, "path": "special_same_object"}
+        try:
+            res = fast_ticc.ticc_labels(X, window_size=W, num_clusters=2, sparsity_weight=0.11, label_switching_cost=1.0,
+                                        iteration_limit=2, min_cluster_size=1, biased_covariance=True)
+        except Exception as e:
+            acc.fail(case, f"the same 40x2 array labelled again with window {W}: raised {type(e).__name__}: {e}")
+            continue
+        msg = check_labels(res.point_labels, 40, W, 2)
+        if msg is None and any(np.shape(a) != (2 * W, 2 * W) for a in res.markov_random_fields):
+            msg = f"MRF shapes {[np.shape(a) for a in res.markov_random_fields]}, expected {(2 * W, 2 * W)}"
+        if msg is None and TRACER.init_mismatch:
+            msg = f"the main loop was handed {TRACER.init_mismatch[1]} stacked windows instead of {Tp}"
+        if msg:
+            acc.fail(case, f"the same 40x2 array labelled again with window {W} (after other windows): {msg}")
+    acc.sample({"path": "special", "wide": [[6, 1, 4], [5, 2, 4], [8, 1, 6], [4, 3, 3]], "same_object_windows": [3, 2, 1, 2, 4, 3]})
+    return acc.result()
+
+
 def length_tuples(W, nmax):
     alpha = (W + 4, W + 5, W + 8)
     out = []
@@ -190,6 +235,8 @@ def run(ctx):
     tasks.sort(key=lambda t: -(t[0] * t[1]) ** 2 * len(t[3]))
     for r in ctx.pmap(work, tasks):
         ctx.take(r)
+    for r in ctx.pmap(work_special, [None]):
+        ctx.take(r)
     dtasks = [(1, 2, 2, (12,), False), (2, 3, 2, (14,), False), (1, 4, 3, (16,), False),
               (1, 2, 2, (9, 12), True), (2, 3, 2, (10, 8, 13), True), (1, 5, 2, (11, 14), True)]
     for r in ctx.pmap(work_default, dtasks, jobs=6):
@@ -199,7 +246,7 @@ def run(ctx):
         "single: N in {1,2,3} x W in 1..6 x K in {2,3} x T in {W+5,W+6,W+9}; joint: every tuple (every order) of "
         "1..n series with lengths from {W+4,W+5,W+8} (plus tuples with one series of exactly W rows in every position), n = 3 for K=2 and NW<=6, 2 up to NW<=8 (thorough: 6 for "
         "NW<=2, 4 for NW<=4, 3 beyond, both K); scripted contiguous-block initial labelling, virtual pool, limit 3; "
-        "plus 6 runs on the untouched default path (real GMM, real pool). Oracle on the result: T labels, margins "
+        "plus series with fewer rows than sensors, the same array object labelled six times with different windows, and 6 runs on the untouched default path (real GMM, real pool). Oracle on the result: T labels, margins "
         "exactly floor((W-1)/2) / (W-1)-floor((W-1)/2) of -1, all others integers in [0,K), K MRFs of NW x NW, K "
         "and W echoed, joint: one list per series in input order, each equal to its slice of the joint labelling. "
         "Runs that raise are counted, not judged. non-trivial = W>1 and (single or >= 2 series)")
@@ -208,7 +255,9 @@ def run(ctx):
 def replay(ctx, case):
     from vlib import lib
     lib.load("nojit")
-    if case.get("path") == "default":
+    if str(case.get("path", "")).startswith("special"):
+        ctx.take(work_special(None))
+    elif case.get("path") == "default":
         ctx.take(work_default((case["N"], case["W"], case["K"], tuple(case["lengths"]), case["joint"])))
     else:
         ctx.take(work((case["N"], case["W"], case["K"], [tuple(case["lengths"])], case["joint"], case.get("seed", 0))))
